@@ -146,7 +146,10 @@ def handleC36 (j : Json) : Json :=
     let cb := jbool (jget j "cancel_blocked")
     let cbFired := cb && jhas impl "seen_at_cancel"
     -- transport parameter `reach = false`: the assumption under which the cancellation theorems are stated
-    let r := runStream false watch max ca cb script req
+    -- `wrap`: the harness put a decorator below the interceptor that reports the cancellation as a wrapped
+    -- context.Canceled (cancelIs) on a transport where a stream opened after the cancellation would reach the server (reach)
+    let wrap := jbool (jget j "wrap")
+    let r := runStream wrap wrap watch max ca cb script req
     let agree := !crash && r.delivered == delivered && r.final.reqs == seen && errName r.err == ierr
     -- the specification decides "watch stream" by the property's own list, not by the code's allow-list
     let specWatch := watchMethods.contains ("/pb.CoreRPC/" ++ method)
@@ -156,7 +159,7 @@ def handleC36 (j : Json) : Json :=
     verdict id agree
       (Json.mkObj [("delivered", Json.arr (r.delivered.map Json.str).toArray), ("seen", r.final.reqs.length), ("err", errName r.err)])
       (viol.map ("C36:" ++ ·))
-      ((if watch then "watch" else "plain") ++ (if ca.isSome then "-cancel" else "") ++ (if cbFired then "-cancelblocked" else "") ++ (if reopened then "-reopened" else ""))
+      ((if watch then "watch" else "plain") ++ (if ca.isSome then "-cancel" else "") ++ (if cbFired then "-cancelblocked" else "") ++ (if wrap then "-wrapped" else "") ++ (if reopened then "-reopened" else ""))
       (watch && !reopened && ca.isNone && !cb)
 end C36
 
